@@ -607,6 +607,7 @@ func checkC14(c *Ctx) {
 	// read lock re-acquired under a read lock deadlocks as soon as a writer queues in between), and the
 	// lock classes are acquired in one order (shared with C09 O3)
 	c.checkLockOrder("O4 lock-order", []string{"m3", "internal/cache", "m3/thriftudp"}, eng)
+	c.checkNoSendUnderLock("O4 no-send-under-lock", []string{"m3", "internal/cache", "m3/thriftudp"}, eng)
 
 	// ---- O5 index guards ----------------------------------------------------------------------------
 	c.checkM3SearchGuards("O5 index-guard")
@@ -952,4 +953,140 @@ func (c *Ctx) checkM3SearchGuards(rule string) {
 			c.ok(rule, key, s.call.Pos(), fmt.Sprintf("search result range-checked before each of its %d index use(s)", uses))
 		}
 	}
+}
+
+// checkNoSendUnderLock: in the reporter's packages no mutex is held across a blocking channel
+// operation - a send (outside a select with a default), or a call of a function of these packages
+// that can reach one through static calls. The queue's only consumer takes the reporter's locks too
+// (it sizes and counts what it batches): a producer that blocks on the full queue while holding one
+// of them stops the consumer at its next use of that lock, the queue never drains, and every later
+// report, Flush and Close hangs.
+func (c *Ctx) checkNoSendUnderLock(rule string, pkgs []string, eng *lockEngine) {
+	inPkgs := map[string]bool{}
+	for _, pk := range pkgs {
+		inPkgs[pkgPath(pk)] = true
+	}
+	var fns []*ssa.Function
+	for _, fn := range c.AllFuncs {
+		if inPkgs[fn.Package().Pkg.Path()] {
+			fns = append(fns, fn)
+		}
+	}
+	direct := func(in ssa.Instruction) bool {
+		switch x := in.(type) {
+		case *ssa.Send:
+			return true
+		case *ssa.Select:
+			if x.Blocking {
+				for _, st := range x.States {
+					if st.Dir == types.SendOnly {
+						return true
+					}
+				}
+			}
+		}
+		return false
+	}
+	// callees of a call: the static one, a literal invoked in place, or - for an interface call - every
+	// method of these packages with that name whose receiver implements the interface (the reporter's
+	// own cached handles are used through tally's interfaces)
+	calleesOf := func(ci ssa.CallInstruction) []*ssa.Function {
+		com := ci.Common()
+		if com.IsInvoke() {
+			it, _ := com.Value.Type().Underlying().(*types.Interface)
+			var out []*ssa.Function
+			for _, g := range fns {
+				if g.Signature.Recv() == nil || g.Name() != com.Method.Name() || g.Parent() != nil {
+					continue
+				}
+				if it != nil && (types.Implements(g.Signature.Recv().Type(), it) || types.Implements(types.NewPointer(g.Signature.Recv().Type()), it)) {
+					out = append(out, g)
+				}
+			}
+			return out
+		}
+		if g := staticCallee(ci); g != nil {
+			return []*ssa.Function{g}
+		}
+		if lit := inlineLiteralOf(ci); lit != nil {
+			return []*ssa.Function{lit}
+		}
+		return nil
+	}
+	// functions that can block on a send (fixpoint over these calls)
+	blocks := map[*ssa.Function]ssa.Instruction{}
+	for _, fn := range fns {
+		instrsOf(fn, func(in ssa.Instruction) {
+			if blocks[fn] == nil && direct(in) {
+				blocks[fn] = in
+			}
+		})
+	}
+	for changed := true; changed; {
+		changed = false
+		for _, fn := range fns {
+			if blocks[fn] != nil {
+				continue
+			}
+			instrsOf(fn, func(in ssa.Instruction) {
+				if blocks[fn] != nil {
+					return
+				}
+				ci, ok := in.(ssa.CallInstruction)
+				if !ok {
+					return
+				}
+				if _, isGo := in.(*ssa.Go); isGo {
+					return
+				}
+				for _, g := range calleesOf(ci) {
+					if blocks[g] != nil && blocks[fn] == nil {
+						blocks[fn] = in
+						changed = true
+					}
+				}
+			})
+		}
+	}
+	nSites, nBad := 0, 0
+	for _, fn := range fns {
+		hasLock := false
+		instrsOf(fn, func(in ssa.Instruction) {
+			if lockOpOf(in) != nil {
+				hasLock = true
+			}
+		})
+		if !hasLock && len(eng.analyze(fn).requires) == 0 {
+			continue
+		}
+		instrsOf(fn, func(in ssa.Instruction) {
+			blocking := direct(in)
+			via := ""
+			if ci, ok := in.(ssa.CallInstruction); ok && !blocking {
+				if _, isGo := in.(*ssa.Go); !isGo {
+					if _, isDefer := in.(*ssa.Defer); !isDefer {
+						for _, g := range calleesOf(ci) {
+							if blocks[g] != nil {
+								blocking = true
+								via = " (through " + g.Name() + ")"
+							}
+						}
+					}
+				}
+			}
+			if !blocking {
+				return
+			}
+			nSites++
+			held := eng.heldAt(in)
+			if len(held) > 0 {
+				nBad++
+				c.bad(rule, c.fnKey(fn), in.Pos(), fmt.Sprintf("a blocking channel send%s is made while %s is held: when the queue is full the sender waits for the consumer, and the consumer - which takes the same lock at its next batch boundary - waits for the sender; reports, Flush and Close then hang for good", via, held), c.describe(in))
+			}
+		})
+	}
+	if nBad == 0 {
+		c.ok(rule, strings.Join(pkgs, ","), token.NoPos, fmt.Sprintf("%d function(s) of these packages can block on a channel send; none of the %d such operations inside lock-using functions happens with a mutex held", len(blocks), nSites))
+	}
+	c.floor(rule, len(blocks), 2)
 }
